@@ -577,3 +577,246 @@ pub fn check_c07(cx: &C07Ctx, out: &mut Outcome) {
         }
     }
 }
+
+// ------------------------------------------------------------ C03 receive-window conservation
+
+pub struct C03Ctx<'a> {
+    pub tap: &'a Tap,
+    pub events: &'a [ApiEvent],
+    pub samples: &'a [(u64, Side, h2::verif::VerifStats)],
+    pub final_stats: &'a [(Side, Option<h2::verif::VerifStats>, bool)],
+    pub h2_sides: &'a [Side],
+    /// configured connection-level target at start [client, server]
+    pub conn_target: [u32; 2],
+    /// configured initial stream window [client, server]
+    pub initial_window: [u32; 2],
+}
+
+pub fn check_c03(cx: &C03Ctx, out: &mut Outcome) {
+    for &e in cx.h2_sides {
+        let i = crate::tapx::side_idx(e);
+        let p = e.other();
+        // ---- target over time (set_target_window_size calls from the API log)
+        let mut targets: Vec<(u64, i64)> = vec![(0, cx.conn_target[i] as i64)];
+        for ev in cx.events.iter().filter(|ev| ev.side == e) {
+            if let Api::ConnOp { op } = &ev.api {
+                if let Some(rest) = op.strip_prefix("set_target_window_size(") {
+                    if let Ok(v) = rest.trim_end_matches(')').parse::<i64>() {
+                        targets.push((ev.step, v));
+                    }
+                }
+            }
+        }
+        let target_at = |t: u64| targets.iter().rev().find(|x| x.0 <= t).map(|x| x.1).unwrap_or(cx.conn_target[i] as i64);
+        let target_changes: Vec<u64> = targets.iter().skip(1).map(|x| x.0).collect();
+        let conn_done_at = cx.events.iter().find(|ev| ev.side == e && matches!(&ev.api, Api::ConnDone { .. })).map(|ev| ev.step);
+        // ---- (1) conservation: available + in-flight == target at every sample of the live connection
+        // (not within a few steps of a target change: the call and the sample are not atomic)
+        let mut checked = 0;
+        for (t, side, st) in cx.samples.iter().filter(|s| s.1 == e) {
+            let _ = side;
+            if conn_done_at.map(|d| *t >= d).unwrap_or(false) {
+                break;
+            }
+            if target_changes.iter().any(|c| *t + 1 >= *c && *t <= *c + 16) {
+                continue;
+            }
+            let sum = st.recv_available as i64 + st.recv_in_flight as i64;
+            let target = target_at(*t);
+            checked += 1;
+            if sum != target {
+                out.fail(
+                    "C03",
+                    "conservation/connection",
+                    if sum < target { "C03/connection-window-credit-leaked" } else { "C03/connection-window-over-credited" },
+                    format!("{} at step {}: connection receive window available {} + in flight {} = {} but the configured target is {}", e.name(), t, st.recv_available, st.recv_in_flight, sum, target),
+                );
+                break;
+            }
+        }
+        if checked > 0 {
+            out.label("conservation-sampled");
+        }
+        // ---- (2) bytes counted in flight are really held by someone: at each sample, in-flight ≤ bytes delivered
+        // on streams whose receive handle is still alive minus what the application released
+        let ws = wire_streams(cx.tap);
+        let apps = app_streams(cx.events);
+        // per stream: delivered DATA (time, flow len), releases (time, n), time the receive side was dropped/reset
+        let mut delivered: HashMap<u32, Vec<(u64, i64)>> = HashMap::new();
+        for f in cx.tap.frames.iter().filter(|f| f.from == p) {
+            if let (Ok(Frame::Data { stream, .. }), Some(td)) = (&f.frame, f.t_d0) {
+                delivered.entry(*stream).or_default().push((td, f.frame.as_ref().unwrap().flow_len() as i64));
+            }
+        }
+        let mut key_stream: HashMap<u32, u32> = HashMap::new();
+        for ((side, s), a) in &apps {
+            if *side == e {
+                key_stream.insert(a.key, *s);
+            }
+        }
+        let mut released: HashMap<u32, Vec<(u64, i64)>> = HashMap::new();
+        let mut gone: HashMap<u32, u64> = HashMap::new();
+        for ev in cx.events.iter().filter(|ev| ev.side == e) {
+            let s = match key_stream.get(&ev.key) {
+                Some(s) => *s,
+                None => continue,
+            };
+            match &ev.api {
+                Api::Released { n, err: None } => released.entry(s).or_default().push((ev.step, *n as i64)),
+                // (the moment the *reader* let go: a reset by the same side's sender leaves buffered data with the
+                // still-alive receive handle)
+                // (dropping a ResponseFuture is not dropping a RecvStream: h2 keeps buffering the response until the
+                // last handle of the stream goes away, then credits it back — allowed)
+                Api::DroppedRecv | Api::RecvErr { op: "data", .. } | Api::RecvErr { op: "trailers", .. } | Api::RecvTrailers { .. } => {
+                    gone.entry(s).or_insert(ev.step);
+                }
+                _ => {}
+            }
+        }
+        // cumulative sums for binary search
+        let cum = |v: &Vec<(u64, i64)>| -> Vec<(u64, i64)> {
+            let mut v2 = v.clone();
+            v2.sort();
+            let mut acc = 0;
+            for x in v2.iter_mut() {
+                acc += x.1;
+                x.1 = acc;
+            }
+            v2
+        };
+        let at = |v: &Vec<(u64, i64)>, t: u64| -> i64 {
+            let i = v.partition_point(|x| x.0 <= t);
+            if i == 0 {
+                0
+            } else {
+                v[i - 1].1
+            }
+        };
+        let delivered_c: HashMap<u32, Vec<(u64, i64)>> = delivered.iter().map(|(k, v)| (*k, cum(v))).collect();
+        let released_c: HashMap<u32, Vec<(u64, i64)>> = released.iter().map(|(k, v)| (*k, cum(v))).collect();
+        let surfaced: HashSet<u32> = key_stream.values().copied().collect();
+        let fut_dropped: HashSet<u32> = cx.events.iter().filter(|ev| ev.side == e && matches!(&ev.api, Api::DroppedResponseFuture)).filter_map(|ev| key_stream.get(&ev.key).copied()).collect();
+        let e_reset: HashSet<u32> = ws.iter().filter(|(_, w)| !w.rst[i].is_empty()).map(|(s, _)| *s).collect();
+        let mine: Vec<&(u64, Side, h2::verif::VerifStats)> = cx.samples.iter().filter(|s| s.1 == e).collect();
+        let stride = (mine.len() / 400).max(1);
+        for (t, _, st) in mine.iter().step_by(stride).map(|x| (&x.0, &x.1, &x.2)) {
+            if conn_done_at.map(|d| *t >= d).unwrap_or(false) {
+                break;
+            }
+            if st.recv_in_flight == 0 {
+                continue;
+            }
+            let mut held: i64 = 0;
+            let mut unknown = false;
+            for (s, d) in &delivered_c {
+                if let Some(g) = gone.get(s) {
+                    // a stream the application no longer reads holds nothing — a grace period of a few steps for
+                    // the release to be processed
+                    if *g + 24 < *t {
+                        continue;
+                    }
+                }
+                if fut_dropped.contains(s) {
+                    unknown = true;
+                    break;
+                }
+                if !surfaced.contains(s) {
+                    // never surfaced to the application (refused/unknown stream, or not yet accepted): the
+                    // library may legitimately buffer it until accept
+                    if !e_reset.contains(s) {
+                        unknown = true;
+                        break;
+                    }
+                    continue;
+                }
+                let del = at(d, *t);
+                let rel = released_c.get(s).map(|v| at(v, *t)).unwrap_or(0);
+                held += (del - rel).max(0);
+            }
+            if unknown {
+                continue;
+            }
+            if st.recv_in_flight as i64 > held {
+                out.fail(
+                    "C03",
+                    "conservation/in-flight-held-by-nobody",
+                    "C03/discarded-data-not-credited-back",
+                    format!("{} at step {}: {} bytes are counted as in flight, but the application holds at most {} unreleased bytes on streams it still reads (data discarded for dropped/reset/finished streams must be credited back when discarded)", e.name(), t, st.recv_in_flight, held),
+                );
+                break;
+            }
+        }
+        // ---- (3) wire: never over-credit. Streams: advertised(s,t) ≤ initial window in force; connection: after
+        // every WINDOW_UPDATE(0) the advertised window ≤ the target configured then; both ≤ 2^31-1
+        let mut iw_sent: i64 = 65535;
+        let mut adv_conn: i64 = 65535;
+        let mut adv: HashMap<u32, i64> = HashMap::new();
+        // merge E's WINDOW_UPDATE/SETTINGS (by t_w0) and P's DATA (by t_d0)
+        let mut evs: Vec<(u64, u8, usize)> = Vec::new();
+        for (pos, f) in cx.tap.frames.iter().enumerate() {
+            match (&f.frame, f.from == e) {
+                (Ok(Frame::WinUp { .. }), true) | (Ok(Frame::Settings { ack: false, .. }), true) => evs.push((f.t_w0, 1, pos)),
+                (Ok(Frame::Data { .. }), false) => {
+                    if let Some(td) = f.t_d0 {
+                        evs.push((td, 0, pos));
+                    }
+                }
+                _ => {}
+            }
+        }
+        evs.sort();
+        for (t, _, pos) in evs {
+            let f = &cx.tap.frames[pos];
+            match &f.frame {
+                Ok(Frame::Data { stream, .. }) => {
+                    let n = f.frame.as_ref().unwrap().flow_len() as i64;
+                    adv_conn -= n;
+                    *adv.entry(*stream).or_insert(iw_sent) -= n;
+                }
+                Ok(Frame::Settings { params, .. }) => {
+                    for (k, v) in params {
+                        if *k == crate::refmodel::wire::S_INITIAL_WINDOW {
+                            let d = *v as i64 - iw_sent;
+                            iw_sent = *v as i64;
+                            for a in adv.values_mut() {
+                                *a += d;
+                            }
+                        }
+                    }
+                }
+                Ok(Frame::WinUp { stream: 0, inc, .. }) => {
+                    adv_conn += *inc as i64;
+                    // the frame may have been composed (and buffered) some steps before it reached the transport:
+                    // the largest target in force during the last 48 steps is what it is held against
+                    let lo = t.saturating_sub(48);
+                    let target = targets.iter().filter(|x| x.0 >= lo && x.0 <= t).map(|x| x.1).max().unwrap_or(0).max(target_at(lo)).max(target_at(t));
+                    if adv_conn > target.max(65535) || adv_conn > 0x7fff_ffff {
+                        out.fail("C03", "over-credit/connection", "C03/connection-window-advertised-above-target", format!("{} WINDOW_UPDATE(0, {}) at step {} raises the advertised connection window to {}, configured target {}", e.name(), inc, t, adv_conn, target));
+                        break;
+                    }
+                }
+                Ok(Frame::WinUp { stream, inc, .. }) => {
+                    let a = adv.entry(*stream).or_insert(iw_sent);
+                    *a += *inc as i64;
+                    if *a > iw_sent.max(cx.initial_window[i] as i64) || *a > 0x7fff_ffff {
+                        out.fail("C03", "over-credit/stream", "C03/stream-window-advertised-above-initial-window", format!("{} WINDOW_UPDATE({}, {}) at step {} raises the advertised stream window to {}, initial window in force {}", e.name(), stream, inc, t, *a, iw_sent));
+                        break;
+                    }
+                }
+                _ => {}
+            }
+        }
+        // ---- (4) wire vs bookkeeping at the end: the window the peer can compute equals the one E believes it advertised
+        if let Some((_, Some(st), _)) = cx.final_stats.iter().find(|s| s.0 == e) {
+            if conn_done_at.is_none() {
+                let delivered_all: i64 = cx.tap.frames.iter().filter(|f| f.from == p && f.t_d.is_some()).map(|f| f.frame.as_ref().map(|x| x.flow_len() as i64).unwrap_or(0)).sum();
+                let undelivered = cx.tap.frames.iter().any(|f| f.from == p && f.t_d.is_none() && matches!(&f.frame, Ok(Frame::Data { .. })));
+                let wu: i64 = cx.tap.frames.iter().filter(|f| f.from == e).filter_map(|f| if let Ok(Frame::WinUp { stream: 0, inc, .. }) = &f.frame { Some(*inc as i64) } else { None }).sum();
+                let peer_view = 65535 + wu - delivered_all;
+                if !undelivered && peer_view != st.recv_window as i64 {
+                    out.fail("C03", "conservation/wire-vs-books", "C03/advertised-window-differs-from-bookkeeping", format!("{}: from the wire the connection window is {} (65535 + {} granted − {} received) but the endpoint believes it advertised {}", e.name(), peer_view, wu, delivered_all, st.recv_window));
+                }
+            }
+        }
+    }
+}
